@@ -34,3 +34,4 @@ Definition f64to32_fl (x : Z) : Z :=
   key 24 128 (binary_normalize 24 128 eq_refl eq_refl mode_NE x (-1074) false).
 Definition one64_fl : Z := Z.shiftl 1 1074.
 
+
